@@ -41,6 +41,8 @@ type c09E2EResult struct {
 	Kind    string          `json:"kind"`
 	Replies []c09Outcome    `json:"replies"`
 	Cache   []c09CacheEntry `json:"cache"`
+	Stuck   bool            `json:"stuck,omitempty"`
+	Dump    string          `json:"dump,omitempty"`
 	Panic   string          `json:"panic,omitempty"`
 }
 
@@ -115,7 +117,7 @@ func c09RunE2E(cs c09E2ECase) (res c09E2EResult) {
 								f := make([]byte, 2+len(b))
 								binary.BigEndian.PutUint16(f, uint16(len(b)))
 								copy(f[2:], b)
-								_ = srv.SetWriteDeadline(time.Now().Add(2 * time.Second))
+								_ = srv.SetWriteDeadline(time.Now().Add(c09D(30 * time.Second)))
 								if _, err := srv.Write(f); err != nil {
 									return
 								}
@@ -174,8 +176,10 @@ func c09RunE2E(cs c09E2ECase) (res c09E2EResult) {
 		var herr error
 		select {
 		case herr = <-done:
-		case <-time.After(20 * time.Second):
+		case <-time.After(c09D(60 * time.Second)):
 			herr = fmt.Errorf("c09: handler did not return")
+			res.Stuck = true
+			res.Dump = c09Dump()
 		}
 		switch {
 		case len(w.msgs) > 0:
